@@ -50,3 +50,13 @@ Definition group_key (shape : list nat) (g : nat) (i : nat) : list nat :=
   let gs := group_shape shape g in
   let nd := length gs in
   mask_axes (filter (fun a => negb (Nat.eqb a 0) && negb (Nat.eqb a (nd - 2))) (seq 0 nd)) (unravel gs i).
+
+(* ---- sorting axis lists (flax normalises contraction / reduction axes with sorted(...)) ---- *)
+Fixpoint ninsert (x : nat) (l : list nat) : list nat :=
+  match l with
+  | [] => [x]
+  | y :: r => if Nat.leb x y then x :: l else y :: ninsert x r
+  end.
+Definition nsort (l : list nat) : list nat := fold_right ninsert [] l.
+(* axis % ndim for an axis in [-ndim, ndim), given as (negative, magnitude) *)
+Definition norm_ax (ndim : nat) (a : bool * nat) : nat := if fst a then ndim - snd a else snd a.
